@@ -191,4 +191,54 @@ def run (s : State) : List Act → Option State
 def view (s : State) : List (Nat × List Nat) :=
   s.map.filterMap fun p => match lookup s.grps p.2 with | some G => some (p.1, G.alerts) | none => none
 
+/-! ### yield-point granularity
+
+  In builds with the tag `verif` the dispatcher calls `VerifYield` at five points
+  (/repo/dispatch/verif_yield_on.go): in the ingestion worker before `routeAlert`
+  (`pc = load` not yet executed), after `groups.Load` (`pc = insLoaded` or `create`),
+  before `CompareAndSwap` (`pc = cas`), before `LoadOrStore` (`pc = los`), and in
+  `doMaintenance` before `CompareAndDelete` (`mpc = cad`).  A harness that parks the
+  goroutines there can realise exactly the schedules in which a thread's micro-steps
+  between two yield points are adjacent; `macroStep` is such a block.  The steps that
+  are merged (`create`, `loop`, `retry`: thread-local when no group limit is set;
+  `insLoaded`/`insExisting` directly after the preceding map operation) are listed in
+  lib/props/C06.py as the part of the interleaving space the replay cannot reach. -/
+
+/-- the thread is parked before the operation of this pc, or has returned -/
+def parksAt : PC → Bool
+  | .cas | .los | .done => true
+  | _ => false
+
+/-- run thread `t` until it is parked again; the micro-steps taken are returned -/
+def macroGo (s : State) (t : Nat) : Nat → Option (State × List Act)
+  | 0 => some (s, [])
+  | fuel + 1 =>
+    match lookup s.thrs t with
+    | none => none
+    | some T =>
+      if parksAt T.pc then some (s, []) else
+      match stepThr s t T with
+      | none => none
+      | some s' =>
+        match macroGo s' t fuel with
+        | none => none
+        | some (s'', acts) => some (s'', Act.step t :: acts)
+
+/-- release thread `t` from the yield point it is parked at: `worker:received` → `Load` only;
+    otherwise up to the next `cas`/`los`/return -/
+def macroStep (s : State) (t : Nat) : Option (State × List Act) :=
+  match lookup s.thrs t with
+  | none => none
+  | some T =>
+    match stepThr s t T with
+    | none => none
+    | some s' =>
+      if T.pc = .load then some (s', [Act.step t]) else
+      match macroGo s' t 8 with
+      | none => none
+      | some (s'', acts) => some (s'', Act.step t :: acts)
+
+/-- the maintenance sweep from the `Range` callback for entry `g` up to its yield point -/
+def maintToYield (g : Nat) : List Act := [.mPick g, .mStep, .mStep]
+
 end AM.GroupMap
